@@ -198,6 +198,21 @@ func Note(s string)                           {}
 // uninterpreted function under gosym (no-op natively).
 func Abstract(fn string) {}
 
+// FireTimers lets every armed time.AfterFunc / time.NewTimer timer expire now and returns how
+// many did (gosym only; natively it waits long enough for short timers to expire by themselves).
+func FireTimers() int {
+	time.Sleep(60 * time.Millisecond)
+	return 0
+}
+
+// ExploreSelect makes a select statement with several ready cases a decision (Go chooses
+// among them at random); no-op natively.
+func ExploreSelect(on bool) {}
+
+// FireTickers makes every time.Ticker created so far tick once (gosym only; natively tickers
+// run on real time).
+func FireTickers() {}
+
 // SetClock sets the virtual clock seen by time.Now (no-op natively).
 func SetClock(ns int64) {}
 
